@@ -222,6 +222,45 @@ pub fn generate(tier: &str, rng: &mut Prng) -> Vec<Case> {
                 }
             }
         }
+        // unary runs long enough to wrap a 16-bit composition of the magnitude (512 zeros: 512 << 7 = 2^16): the
+        // specification rejects (and so does the cap); a decoder that lets the run through sees a small coefficient, for which
+        // the key below makes the norm tiny
+        for r in [512usize, 513, 514, 95, 96, 255, 256] {
+            for pos in [0usize, n / 2, n - 2, n - 1] {
+                let msg = rng.bytes(4);
+                let salt = rng.bytes(40);
+                let mut s2: Vec<i32> = (0..n).map(|_| rng.range(-3, 3) as i32).collect();
+                let low = 1 + rng.below(100) as i32;
+                let wrapped = (((r as i64) << 7) + low as i64).rem_euclid(65536) as i32; // what an i16/u16 composition keeps
+                s2[pos] = if wrapped >= 32768 { wrapped - 65536 } else { wrapped };
+                // bit-level encoding with the long run at `pos`
+                let mut bits: Vec<bool> = vec![];
+                for (i, &v) in s2.iter().enumerate() {
+                    let (mag, zeros) = if i == pos { (low as u32, r) } else { (v.unsigned_abs(), (v.unsigned_abs() >> 7) as usize) };
+                    bits.push(v < 0 && i != pos);
+                    for b in (0..7).rev() {
+                        bits.push((mag >> b) & 1 == 1);
+                    }
+                    bits.extend(std::iter::repeat(false).take(zeros));
+                    bits.push(true);
+                }
+                let l = sig_len(n) - 41;
+                if bits.len() > 8 * l {
+                    continue;
+                }
+                bits.resize(8 * l, false);
+                let body: Vec<u8> = bits.chunks(8).map(|c| c.iter().fold(0u8, |a, &b| (a << 1) | b as u8)).collect();
+                let t: Vec<i64> = (0..n).map(|_| rng.range(-2, 2)).collect();
+                let (c, _) = crate::c14::reference(&[&salt[..], &msg[..]].concat(), n);
+                let d: Vec<u32> = (0..n).map(|i| (c[i] as i64 - t[i]).rem_euclid(Q) as u32).collect();
+                let s2f: Vec<u32> = s2.iter().map(|&x| (x as i64).rem_euclid(Q) as u32).collect();
+                let s2ntt = vh::felt_fft(&s2f);
+                if s2ntt.iter().all(|&x| x != 0) {
+                    let h = vh::felt_ifft(&vh::felt_hadamard_div(&vh::felt_fft(&d), &s2ntt));
+                    push(&mut ops, n, &msg, &make_sig(n, &salt, &body), &enc_pk(n, &h));
+                }
+            }
+        }
         // malformed / boundary encodings of s at production size under a random key
         for _ in 0..(if thorough { 3000 } else { 150 }) {
             let ml = rng.range(0, 12) as usize;
